@@ -386,6 +386,8 @@ fn run(a: &vhcore::Args) -> i32 {
     let mut pool = Pool::new(a.jobs, vhcore::work_dir("C11/pool"));
     // workers keep every compiled package in their engines; recycle to bound memory
     pool.recycle_after = 100;
+    // wall-clock watchdog only (never a verdict); generous because the box may be heavily oversubscribed
+    pool.timeout = std::time::Duration::from_secs(3600);
 
     // Mode F = Mode A self-check on a spread of contract shapes (folded into the main run).
     let sc_idx: Vec<usize> = {
